@@ -142,6 +142,29 @@ def root_refused(kind: int, a: int) -> bool:
     return False
 
 
+def delete_again(i: int, j: int, a: int, b: int, c: int) -> bool:
+    """Two delete_nodes() calls in a row on ONE Processor, possibly at the same index: each removes its match."""
+    vals = [a, b, c, 7, 8]
+    lst = cseq(*vals)
+    doc = cmap(("l", lst), ("h", cmap(("p", a), ("q", b))))
+    proc = Processor(LOG, doc)
+    note(i=i, j=j, leaves=[a, b, c])
+    for _ in proc.delete_nodes("l[" + str(i) + "]"):
+        pass
+    del vals[i]
+    for _ in proc.delete_nodes("l[" + str(j) + "]"):
+        pass
+    del vals[j]
+    if list(doc["l"]) != vals:
+        return False
+    for _ in proc.delete_nodes("h.p"):
+        pass
+    proc.set_value("h.p", 1)
+    for _ in proc.delete_nodes("h.p"):
+        pass
+    return list(doc["h"].keys()) == ["q"] and list(doc["l"]) == vals
+
+
 def gathered(i: int, j: int, a: int, b: int, c: int) -> bool:
     """delete_gathered_nodes over results gathered by two queries on one list removes both (any order of i, j)."""
     lst = cseq(a, b, c, 7)
@@ -209,6 +232,10 @@ def shards(tier, seed):
     out.append(shard(PID, "root", "harness.c04", "root_refused(kind, a)", [("kind", "int"), ("a", "int")],
                      ["0 <= kind <= 2", "-9 <= a <= 9"], family="root", budget=300,
                      desc="deleting the document root is refused and changes nothing"))
+    out.append(shard(PID, "delete_again", "harness.c04", "delete_again(i, j, a, b, c)",
+                     [("i", "int"), ("j", "int"), ("a", "int"), ("b", "int"), ("c", "int")],
+                     ["0 <= i <= 4 and 0 <= j <= 3", "-9 <= a <= 9 and -9 <= b <= 9 and -9 <= c <= 9"], family="sequence",
+                     budget=900, desc="two deletes in a row on one Processor (same or different index), delete/set/delete of a key"))
     out.append(shard(PID, "gathered", "harness.c04", "gathered(i, j, a, b, c)",
                      [("i", "int"), ("j", "int"), ("a", "int"), ("b", "int"), ("c", "int")],
                      ["0 <= i <= 3 and 0 <= j <= 3", "-9 <= a <= 9 and -9 <= b <= 9 and -9 <= c <= 9"], family="gathered",
